@@ -124,7 +124,7 @@ __CPROVER_ensures(NO_SIBLING_AFTER_STOP(packet))
 
 static int walk_loops(cif_container_tp *container, cif_handler_tp *handler, void *context)
 __CPROVER_requires(HANDLER_OK(handler) && g_stopped == 0 && context == g_ctx && container != NULL)
-__CPROVER_assigns(G_STOP, G_ITEM, G_PACKET, G_LOOP, G_ITER, G_LOOPS G_SELF(container))
+__CPROVER_assigns(G_STOP, G_ITEM, G_PACKET, G_LOOP, G_ITER, G_LOOPS; (void *)container == g_self: g_self_loops_walks, g_self_frames_at_loops)
 __CPROVER_ensures(STOP_POST(RET))
 __CPROVER_ensures(NO_SIBLING_AFTER_STOP(loop))
 /* the answer handed to walk_container tells it whether a loop cut the group short */
@@ -174,7 +174,7 @@ __CPROVER_ensures(RET != CIF_OK ==> (RET > 0 && IS_STOP(RET) && g_stopped == 1 &
 
 int cif_container_get_all_frames(cif_container_tp *container, cif_container_tp ***frames)
 __CPROVER_requires(container != NULL && __CPROVER_w_ok(frames, sizeof(*frames)))
-__CPROVER_assigns(*frames, g_nframes, g_nframes_got, G_STOP G_SELF(container))
+__CPROVER_assigns(*frames, g_nframes, g_nframes_got, G_STOP; (void *)container == g_self: g_self_nframes, g_self_frames_got)
 __CPROVER_ensures((void *)container == g_self ==> (g_self_nframes == g_nframes && g_self_frames_got == (RET == CIF_OK ? 1 : 0)))
 __CPROVER_ensures(g_nframes_got == (RET == CIF_OK ? 1 : 0))
 __CPROVER_ensures(RET == CIF_OK ==> (g_nframes <= MAXK && __CPROVER_is_fresh(*frames, (MAXK + 1) * sizeof(cif_container_tp *)) && (*frames)[g_nframes] == NULL))
